@@ -141,12 +141,8 @@ fn find_util_rules(config: &ProjectConfig) -> Result<GlobalRules<SgLang>> {
   let walker = walker.types(config_file_type()).build();
   for dir in walker {
     let config_file = dir.with_context(|| EC::WalkRuleDir(PathBuf::new()))?;
-    // file_type is None only if it is stdin, safe to panic here
-    if !config_file
-      .file_type()
-      .expect("file type should be available for non-stdin")
-      .is_file()
-    {
+    // file_type is None for stdin (a directory given as `-`): not a config file
+    if !config_file.file_type().is_some_and(|t| t.is_file()) {
       continue;
     }
     let path = config_file.path();
@@ -177,12 +173,8 @@ fn read_directory_yaml(
       .build();
     for dir in walker {
       let config_file = dir.with_context(|| EC::WalkRuleDir(dir_path.clone()))?;
-      // file_type is None only if it is stdin, safe to panic here
-      if !config_file
-        .file_type()
-        .expect("file type should be available for non-stdin")
-        .is_file()
-      {
+      // file_type is None for stdin (a directory given as `-`): not a config file
+      if !config_file.file_type().is_some_and(|t| t.is_file()) {
         continue;
       }
       let path = config_file.path();
